@@ -77,6 +77,14 @@ func (self *Fork) postProcess(ctx context.Context) error {
 		noutMap := make(MarshalerMap, len(outs))
 		for k, elem := range outs {
 			util.Print("Fork \"%s\":\n", k)
+			if err := syntax.IsLegalUnixFilename(k); err != nil {
+				// The key is used as the name of this fork's directory in
+				// outs.  Leave the fork's outputs where they are, and say so.
+				errs = append(errs, fmt.Errorf(
+					"cannot create out directory for fork %q: %v", k, err))
+				noutMap[k] = elem
+				continue
+			}
 			nout, err := self.processStructOuts(pipestancePath,
 				path.Join(outsPath, k), elem)
 			if err != nil {
